@@ -5,6 +5,9 @@ link styles (plain, in-line amplifier, fused) x every ordered (source, destinati
 <= 2 (thorough: 3) nodes drawn from {ROADMs, line elements of two links, unknown name, a transceiver} x hop types.
 Real requests_from_json -> correct_json_route_list -> compute_path_dsjctn on the designed network with OMS built (as
 planning() does); independent brute-force oracle (own DFS, own ordered-subsequence test).
+Batches of two requests between the same transceivers (every ordered pair of short include lists x hop types: twins that
+differ only in hop type or in the order of the nodes) through requests_aggregation + compute_path_dsjctn, each judged on its
+own list; complete element lists of routes (>= 11 route objects) as STRICT include lists.
 """
 import itertools
 
@@ -26,6 +29,68 @@ def candidates(net, topo):
     lasts = [u for u in line if u.startswith(last_prefix + ':')][:2]
     auto = sorted(n.uid for n in net.nodes() if n.uid.startswith('Edfa_booster_roadm A') or n.uid.startswith('Edfa_preamp_roadm A'))[:2]
     return uids + firsts[:4] + lasts + auto + ['roadm Nowhere']
+
+
+def judge(ctx, where, rq, path, src, dst, eff):
+    """compare the route returned for one request with the brute-force enumeration; returns True when a trace agreed"""
+    net, paths, shortest, viol, tags = ctx['net'], ctx['all_paths'][(src, dst)], ctx['shortest'][(src, dst)], ctx['viol'], ctx['tags']
+    ok = False
+    inc_uids = [u for u, _ in eff]
+    strict = [h for _, h in eff]
+    sat = [(p, L) for p, L in paths if rg.contains_in_order(p, inc_uids)]
+    reason = getattr(rq, 'blocking_reason', None)
+    if sat:
+        best = min(L for _, L in sat)
+        if not path:
+            viol.append(dict(fingerprint='blocked-although-route-exists', what=f'{where}: blocked ({reason}) although '
+                             f'{sat[0][0]} satisfies the constraints'))
+            return False
+        probs = rg.valid_path(net, path, src, dst)
+        uids = [e.uid for e in path]
+        if probs:
+            viol.append(dict(fingerprint='invalid-route', what=f'{where}: route {uids} {probs[0]}'))
+            return False
+        if not rg.contains_in_order(uids, inc_uids):
+            viol.append(dict(fingerprint='include-constraint-ignored:' + ('line-element+roadm' if any(
+                not u.startswith('roadm') for u in inc_uids) else 'roadm'),
+                what=f'{where}: route {[u for u in uids if u.startswith("roadm")]} does not cross {inc_uids} in order '
+                     f'although a satisfying route exists'))
+            return False
+        L = rg.fibre_length(path)
+        if L > best + 0.01 * len(path) + 1e-6:
+            viol.append(dict(fingerprint='route-not-shortest', what=f'{where}: route of {L / 1e3:.3f} km, shortest '
+                             f'satisfying route {best / 1e3:.3f} km'))
+            return False
+        if inc_uids and best > shortest:
+            tags['constraint-changes-route'] = 1
+        ok = True
+    else:
+        if all(h == 'STRICT' for h in strict):
+            if path or reason != 'NO_PATH_WITH_CONSTRAINT':
+                viol.append(dict(fingerprint='unsatisfiable-strict-not-blocked', what=f'{where}: expected '
+                                 f'NO_PATH_WITH_CONSTRAINT, got reason {reason} route {[e.uid for e in path][:6]}'))
+                return False
+            tags['blocked'] = 1
+            ok = True
+        elif all(h == 'LOOSE' for h in strict):
+            if not path:
+                viol.append(dict(fingerprint='loose-unsatisfiable-blocked', what=f'{where}: blocked ({reason})'))
+                return False
+            probs = rg.valid_path(net, path, src, dst)
+            L = rg.fibre_length(path)
+            if probs:
+                viol.append(dict(fingerprint='invalid-route', what=f'{where}: route {[e.uid for e in path]} {probs[0]}'))
+                return False
+            if L > shortest + 0.01 * len(path) + 1e-6:
+                viol.append(dict(fingerprint='loose-fallback-not-shortest', what=f'{where}: LOOSE constraints cannot '
+                                 f'be met; returned {L / 1e3:.3f} km, unconstrained shortest is {shortest / 1e3:.3f} km'))
+                return False
+            tags['relaxed'] = 1
+            ok = True
+        else:
+            ctx['unjudged'] += 1
+            return False
+    return ok
 
 
 def run_case(case):
@@ -81,6 +146,8 @@ def run_case(case):
     pairs = [(s.uid, d.uid) for s in trx for d in trx if s is not d]
     if case.get('pairs'):
         pairs = pairs[:case['pairs']]
+    ctx = {'net': net, 'all_paths': all_paths, 'shortest': {k: min(L for _, L in v) for k, v in all_paths.items()},
+           'viol': viol, 'tags': tags, 'unjudged': 0}
     for (src, dst) in pairs:
         other_trx = next((t.uid for t in trx if t.uid not in (src, dst)), None)
         paths = all_paths[(src, dst)]
@@ -123,61 +190,9 @@ def run_case(case):
                     viol.append(dict(fingerprint='unknown-strict-node-accepted', what=f'{where}: no ServiceError'))
                     continue
                 rq, path = rqs[0], pths[0]
-                inc_uids = [u for u, _ in eff]
-                strict = [h for _, h in eff]
-                sat = [(p, L) for p, L in paths if rg.contains_in_order(p, inc_uids)]
-                reason = getattr(rq, 'blocking_reason', None)
-                if sat:
-                    best = min(L for _, L in sat)
-                    if not path:
-                        viol.append(dict(fingerprint='blocked-although-route-exists', what=f'{where}: blocked ({reason}) although '
-                                         f'{sat[0][0]} satisfies the constraints'))
-                        continue
-                    probs = rg.valid_path(net, path, src, dst)
-                    uids = [e.uid for e in path]
-                    if probs:
-                        viol.append(dict(fingerprint='invalid-route', what=f'{where}: route {uids} {probs[0]}'))
-                        continue
-                    if not rg.contains_in_order(uids, inc_uids):
-                        viol.append(dict(fingerprint='include-constraint-ignored:' + ('line-element+roadm' if any(
-                            not u.startswith('roadm') for u in inc_uids) else 'roadm'),
-                            what=f'{where}: route {[u for u in uids if u.startswith("roadm")]} does not cross {inc_uids} in order '
-                                 f'although a satisfying route exists'))
-                        continue
-                    L = rg.fibre_length(path)
-                    if L > best + 0.01 * len(path) + 1e-6:
-                        viol.append(dict(fingerprint='route-not-shortest', what=f'{where}: route of {L / 1e3:.3f} km, shortest '
-                                         f'satisfying route {best / 1e3:.3f} km'))
-                        continue
-                    if inc_uids and best > shortest:
-                        tags['constraint-changes-route'] = 1
-                    traces += 1
-                else:
-                    if all(h == 'STRICT' for h in strict):
-                        if path or reason != 'NO_PATH_WITH_CONSTRAINT':
-                            viol.append(dict(fingerprint='unsatisfiable-strict-not-blocked', what=f'{where}: expected '
-                                             f'NO_PATH_WITH_CONSTRAINT, got reason {reason} route {[e.uid for e in path][:6]}'))
-                            continue
-                        tags['blocked'] = 1
-                        traces += 1
-                    elif all(h == 'LOOSE' for h in strict):
-                        if not path:
-                            viol.append(dict(fingerprint='loose-unsatisfiable-blocked', what=f'{where}: blocked ({reason})'))
-                            continue
-                        probs = rg.valid_path(net, path, src, dst)
-                        L = rg.fibre_length(path)
-                        if probs:
-                            viol.append(dict(fingerprint='invalid-route', what=f'{where}: route {[e.uid for e in path]} {probs[0]}'))
-                            continue
-                        if L > shortest + 0.01 * len(path) + 1e-6:
-                            viol.append(dict(fingerprint='loose-fallback-not-shortest', what=f'{where}: LOOSE constraints cannot '
-                                             f'be met; returned {L / 1e3:.3f} km, unconstrained shortest is {shortest / 1e3:.3f} km'))
-                            continue
-                        tags['relaxed'] = 1
-                        traces += 1
-                    else:
-                        unjudged += 1
-                        continue
+                if not judge(ctx, where, rq, path, src, dst, eff):
+                    continue
+                traces += 1
                 # reverse path of the returned route
                 if path and not inc:
                     try:
@@ -194,6 +209,78 @@ def run_case(case):
                 break
         if len(viol) > 12:
             break
+    # ---- batches: two requests between the same transceivers in ONE service document, through the front half of planning()
+    # (requests_from_json, correct_json_route_list, requests_aggregation, compute_path_dsjctn).  Each request is judged on its
+    # own include list: the other request of the batch, the order of the batch and the aggregation step must not matter.
+    if len(viol) <= 12:
+        from gnpy.topology.request import requests_aggregation
+        roadms = [u for u in cands if u.startswith('roadm ') and u != 'roadm Nowhere']
+        short = [()] + [(u,) for u in roadms] + list(itertools.permutations(roadms[:4], 2))
+        variants = [(inc, hop) for inc in short for hop in (('STRICT', 'LOOSE') if inc else ('STRICT',))]
+        for (src, dst) in pairs[:case.get('batch_pairs', 2)]:
+            for (ia, ha), (ib, hb) in itertools.permutations(variants, 2):
+                if not (ia or ib):
+                    continue
+                # twins that differ only in the hop type, lists with the same nodes in another order, and everything else
+                docs = rg.service([rg.request('b1', src, dst, include=[(u, ha) for u in ia]),
+                                   rg.request('b2', src, dst, include=[(u, hb) for u in ib])])
+                transitions += 2
+                try:
+                    rqs = requests_from_json(docs, equipment)
+                    rqs = correct_json_route_list(net, rqs)
+                    rqs, _ = requests_aggregation(rqs, [])
+                    pths = compute_path_dsjctn(net, equipment, rqs, [])
+                except Exception as exc:  # noqa
+                    viol.append(dict(fingerprint=f'batch-route-computation-raised:{type(exc).__name__}',
+                                     what=f'{src}->{dst} batch {[(ia, ha), (ib, hb)]}: {exc}'))
+                    break
+                got = {}
+                for rq, pth in zip(rqs, pths):
+                    for rid in rq.request_id.split(' | '):
+                        got[rid] = (rq, pth)
+                for rid, inc, hop in (('b1', ia, ha), ('b2', ib, hb)):
+                    where = (f'{src}->{dst} request {rid} (include {list(inc)} {hop}) in a batch with the other request '
+                             f'{[(list(ia), ha), (list(ib), hb)]} on graph {case["edges"]} ({case["lengths"]}, {case["style"]})')
+                    if rid not in got:
+                        viol.append(dict(fingerprint='batch-request-lost', what=f'{where}: not among the computed requests '
+                                         f'{[r.request_id for r in rqs]}'))
+                        continue
+                    rq, pth = got[rid]
+                    if ' | ' in rq.request_id and (ia, ha) != (ib, hb):
+                        viol.append(dict(fingerprint='batch-requests-with-different-constraints-aggregated',
+                                         what=f'{where}: aggregated as {rq.request_id}'))
+                        continue
+                    if judge(ctx, where, rq, pth, src, dst, [(u, hop) for u in inc]):
+                        traces += 1
+                if len(viol) > 12:
+                    break
+            tags['batches'] = 1
+    # ---- long explicit routes: the complete element list of a route (every amplifier, fibre, fused and ROADM) as STRICT
+    # include list (11 and more route objects): the route returned is exactly that one
+    if len(viol) <= 12:
+        for (src, dst) in pairs[:case.get('batch_pairs', 2) + 2]:
+            ps = sorted(all_paths[(src, dst)], key=lambda x: (x[1], x[0]))
+            for uids, L in ps[:2] + ps[-2:]:
+                inc = [u for u in uids[1:-1]]
+                if len(inc) < 11:
+                    continue
+                transitions += 1
+                where = f'{src}->{dst} complete route of {len(inc)} elements as STRICT include list on graph {case["edges"]} ' \
+                        f'({case["lengths"]}, {case["style"]})'
+                try:
+                    rqs = requests_from_json(rg.service([rg.request('x', src, dst, include=[(u, 'STRICT') for u in inc])]), equipment)
+                    rqs = correct_json_route_list(net, rqs)
+                    pths = compute_path_dsjctn(net, equipment, rqs, [])
+                except Exception as exc:  # noqa
+                    viol.append(dict(fingerprint=f'explicit-route-raised:{type(exc).__name__}', what=f'{where}: {exc}'))
+                    continue
+                got = [e.uid for e in pths[0]]
+                if got != uids:
+                    viol.append(dict(fingerprint='complete-explicit-route-not-followed', what=f'{where}: asked for {uids[:6]}..., '
+                                     f'got {got[:6]}... (reason {getattr(rqs[0], "blocking_reason", None)})'))
+                    continue
+                tags['long-explicit-route'] = 1
+                traces += 1
     # requests built through the API without any route list (as a library user would), one after the other in this process:
     # each gets the unconstrained shortest route to ITS destination
     if len(viol) <= 12:
@@ -228,6 +315,7 @@ def run_case(case):
         tags['api-requests'] = 1
     for v in viol:
         v['case'] = case
+    unjudged += ctx['unjudged']
     return {'violations': viol[:10], 'transitions': transitions, 'traces': traces, 'unjudged': unjudged,
             'nontrivial': bool(tags), 'tags': tags, 'outcomes': sorted(tags),
             'sample': dict(case, requests=transitions)}
@@ -249,7 +337,7 @@ def main(rep, tier, seed):
     rep.absorb(results)
     rep.cov['bound'] = (f'{len(cases)} networks (connected graphs on 3-5 ROADM sites from the graph atlas x length assignments x '
                         f'link styles), every ordered source/destination pair, every ordered include list of <= '
-                        f'{2 if tier == "quick" else 3} nodes from the per-network alphabet (+ every ordered ROADM triple; + one fibre per link of every walk of 2-3 (thorough: 4) links from source to destination site, loops included) x hop types STRICT/LOOSE/mixed')
+                        f'{2 if tier == "quick" else 3} nodes from the per-network alphabet (+ every ordered ROADM triple; + one fibre per link of every walk of 2-3 (thorough: 4) links from source to destination site, loops included) x hop types STRICT/LOOSE/mixed; + every ordered pair of short include lists x hop types as a two-request batch between the first source/destination pairs; + complete element lists of the shortest and longest routes as STRICT lists')
     rep.cov['space_size'] = len(cases)
     rep.cov['evaluations'] = sum(r.get('transitions', 0) for r in results)
     rep.cov['exhaustive'] = not stats['budget_hit'] and len(results) == len(cases)
@@ -258,5 +346,5 @@ def main(rep, tier, seed):
                        'enumeration of all simple paths. Non-trivial: the include list changes the route, blocks it or is relaxed. '
                        'Jointly unsatisfiable mixed LOOSE/STRICT lists are unjudged (the statement does not say which rule wins).')
     rep.assumptions += ['fibre length is the route metric; the 0.01 m weight of non-fibre edges is covered by a 0.01 m x hops slack']
-    for k in ('blocked', 'relaxed', 'constraint-changes-route', 'strict-unknown-rejected'):
+    for k in ('blocked', 'relaxed', 'constraint-changes-route', 'strict-unknown-rejected', 'batches', 'long-explicit-route'):
         rep.require(rep.tags.get(k, 0) >= 1, f'{k} never observed')
